@@ -17,11 +17,15 @@ import common
 class LinkFS(W.FS):
     """adds spelling-aware resolution on top of the base abstract file system"""
 
-    def __init__(self, ctx, M, root_is_dot):
+    def __init__(self, ctx, M, root_is_dot, up=False):
         W.FS.__init__(self, ctx, M, roots=1, kinds=(FILE, DIR, LINK), follow=True)
         self.root_is_dot = root_is_dot
         self.text[0] = '.' if root_is_dot else '/abs/R0'
-        self.canon = {0: '/abs/R0'}
+        self.canon = {0: '/abs/R0', 'UP': '/abs'}
+        # `up`: a link may also point ABOVE the root, at the root's parent directory /abs (pseudo-node 'UP': a directory whose only
+        # entry is R0, one level less deep than the root)
+        self.up = up
+        self.to_up = [ctx.fresh_bool('to_up%d' % i) if up else BoolVal(False) for i in range(M)]
 
     def chain(self, ctx, i):
         """decide the real parent chain of node i; -> canonical text"""
@@ -42,6 +46,8 @@ class LinkFS(W.FS):
         return self.chain(ctx, i).count('/') - '/abs/R0'.count('/')
 
     def children(self, ctx, d):
+        if d == 'UP':
+            return [0]
         out = W.FS.children(self, ctx, d)
         for c in out:
             self.canon[c] = self.chain(ctx, d) + '/n%d' % c
@@ -51,6 +57,8 @@ class LinkFS(W.FS):
         """which node has this canonical text (deciding parent relations as needed); None if no such node"""
         if text == '/abs/R0':
             return 0
+        if text == '/abs' and self.up:
+            return 'UP'
         if not text.startswith('/abs/R0/'):
             return None
         comps = text[len('/abs/R0/'):].split('/')
@@ -87,8 +95,10 @@ class LinkFS(W.FS):
         for _ in range(self.M + 1):
             if n is None:
                 return None
-            if n == 0 or not ctx.decide(self.islink(n)):
+            if n == 'UP' or n == 0 or not ctx.decide(self.islink(n)):
                 return n
+            if self.up and ctx.decide(self.to_up[n]):
+                return 'UP'
             t = ctx.concretize(self.target[n], range(self.M + 1))
             n = None if t == self.M else t
         return None
@@ -123,6 +133,8 @@ def link_models():
         if n is None:
             ctx.ghost.setdefault('faulted', []).append(('canon', p.text))
             return err(W.Str('No such file or directory'))
+        if n == 'UP':
+            return ok(CanonStr('UP', fs.rootdepth[0] - 1))
         fs.chain(ctx, n)
         return ok(CanonStr(n, fs.rootdepth[0] + BitVecVal(fs.real_depth(ctx, n), 32)))
 
@@ -135,16 +147,14 @@ def link_models():
         if n is None:
             ctx.ghost.setdefault('faulted', []).append(('read_dir', p.text))
             return err(IoError('not found'))
-        if not ctx.decide(fs.isdir(n)):
+        if n != 'UP' and not ctx.decide(fs.isdir(n)):
             ctx.ghost.setdefault('faulted', []).append(('notdir', p.text))
             return err(IoError('not a directory'))
         kids = fs.children(ctx, n)
         ctx.ghost.setdefault('listed', []).append((p.text, n))
         ents = []
         for c in kids:
-            e = W.EntryV(c)
-            ctx.ghost.setdefault('entry_text', {})[id(e)] = p.text + '/n%d' % c
-            e_text = p.text + '/n%d' % c
+            e_text = p.text + ('/R0' if n == 'UP' else '/n%d' % c)
             ents.append(ok(EntryT(c, e_text)))
         return ok(ListIter(ents))
 
@@ -158,6 +168,10 @@ def link_models():
         fs = W.fs_of(ctx)
         p = W.as_path(ctx, args[0])
         L = p.node
+        if fs.up and ctx.decide(fs.to_up[L]):
+            tcanon = '/abs'
+            text = os.path.relpath(tcanon, os.path.dirname(fs.chain(ctx, L))) if ctx.decide(fs.relative[L]) else tcanon
+            return ok(PathV(fs.resolve_text(ctx, text) if text.startswith('/') else 'UP', text, via_link=L))
         t = ctx.concretize(fs.target[L], range(fs.M + 1))
         if t == fs.M:
             text = '/abs/dangling-%d' % L
@@ -178,7 +192,16 @@ def link_models():
         n = p.node if 'symlink_metadata' in callee else fs.final(ctx, p.node)
         if n is None:
             return err(IoError('not found'))
-        return ok(W.EntryV(n))
+        return ok(W.EntryV(0 if n == 'UP' else n))       # /abs is a directory like the root: same kind
+
+    @reg(r'^(std::fs::)?Metadata::(is_dir|is_file|is_symlink)$', 'fs:Metadata::is_dir / is_file / is_symlink (of the node the metadata was taken from)')
+    def meta_is(ctx, args, callee):
+        fs = W.fs_of(ctx)
+        e = ctx.deref(args[0])
+        k = callee.rsplit('::', 1)[1]
+        if e.node == 0:
+            return BoolVal(k == 'is_dir')
+        return fs.kind[e.node] == BitVecVal({'is_dir': DIR, 'is_file': FILE, 'is_symlink': LINK}[k], 8)
 
     return out + base
 
@@ -191,13 +214,13 @@ class EntryT(W.EntryV):
         self.text = text
 
 
-def run_family(sess, M, dot, dfs, fam):
+def run_family(sess, M, dot, dfs, fam, up=False, chains=False):
     prog = sess.prog
     ex = sess.executor(link_models(), unwind=3 * M + 6, maxsteps=600000)
     viol = {}; st = {'paths': 0}
 
     def runp(ctx):
-        fs = LinkFS(ctx, M, dot)
+        fs = LinkFS(ctx, M, dot, up)
         ctx.ghost['fs'] = fs
         ctx.ghost['follow'] = True
         ctx.ghost['match_all'] = BoolVal(True)
@@ -210,20 +233,36 @@ def run_family(sess, M, dot, dfs, fam):
                 return PathV(fs.resolve_text(ctx, b.text), b.text, b.via_link)
             if pn is None:
                 return PathV(None, text, b.via_link)
-            node = fs.node_by_canon(ctx, os.path.normpath(fs.chain(ctx, pn) + '/' + b.text))
+            node = fs.node_by_canon(ctx, os.path.normpath((fs.canon['UP'] if pn == 'UP' else fs.chain(ctx, pn)) + '/' + b.text))
             return PathV(node, text, b.via_link)
 
         def is_dir_hook(ctx, p, callee):
             n = fs.final(ctx, p.node)
             if n is None:
                 return BoolVal(False)
-            return BoolVal(True) if 'exists' in callee else fs.isdir(n)
+            return BoolVal(True) if ('exists' in callee or n == 'UP') else fs.isdir(n)
         ctx.ghost['join_hook'] = join_hook
         ctx.ghost['is_dir_hook'] = is_dir_hook
-        # scope: link targets are not links themselves (chains are outside the bound)
+        # a link can only point at something that exists: a node all of whose ancestors are directories (or nowhere: dangling)
+        _d, real, _r = fs.terms()
         for i in range(1, M):
             for t in range(1, M):
-                ctx.assume(Or(Not(fs.islink(i)), fs.target[i] != t, Not(fs.islink(t))))
+                ctx.assume(Or(Not(fs.islink(i)), fs.target[i] != t, real[t]))
+        if not chains:
+            # scope: link targets are not links themselves
+            for i in range(1, M):
+                for t in range(1, M):
+                    ctx.assume(Or(Not(fs.islink(i)), fs.target[i] != t, Not(fs.islink(t))))
+        else:
+            # a focused scenario: two links, a directory and one more entry (so that something can lie behind the chain)
+            if M >= 5:
+                ctx.assume(And(fs.islink(1), fs.islink(2), fs.isdir(3)))
+            # chains of at most two links: the target of a link's target is not a link; no link points at itself
+            for i in range(1, M):
+                ctx.assume(Or(Not(fs.islink(i)), fs.target[i] != i))
+                for t in range(1, M):
+                    for u in range(1, M):
+                        ctx.assume(Or(Not(fs.islink(i)), fs.target[i] != t, Not(fs.islink(t)), fs.target[t] != u, Not(fs.islink(u))))
         roots = [W.mk_root(prog, fs.text[0], BitVecVal(0, 32), BitVecVal(0, 32), dfs, symlinks=BoolVal(True))]
         q = W.mk_query(prog, roots, BitVecVal(0, 32), ordered=False)
         status = W.run_exec_search(ctx, prog, q)
@@ -261,7 +300,13 @@ def run_family(sess, M, dot, dfs, fam):
             new = [BoolVal(i == 0) for i in range(M)]
             for d in range(1, M):
                 via_entry = And(rep[d], fs.isdir(d))
-                via_link = Or([And(rep[l], fs.islink(l), fs.target[l] == BitVecVal(d, 8), fs.isdir(d)) for l in range(1, M) if l != d] or [BoolVal(False)])
+                def leads_to(l, d):
+                    one = fs.target[l] == BitVecVal(d, 8)
+                    if not chains:
+                        return one
+                    two = Or([And(fs.target[l] == BitVecVal(t, 8), fs.islink(t), fs.target[t] == BitVecVal(d, 8)) for t in range(1, M) if t not in (l, d)] or [BoolVal(False)])
+                    return Or(one, two)
+                via_link = Or([And(rep[l], fs.islink(l), Not(fs.to_up[l]), leads_to(l, d), fs.isdir(d)) for l in range(1, M) if l != d] or [BoolVal(False)])
                 new[d] = Or(via_entry, via_link)
             # the root can also be the target of a link: already listed
             listed = new
@@ -277,6 +322,13 @@ def run_family(sess, M, dot, dfs, fam):
         conds_rows = []
         for i in range(1, M):
             conds_rows.append(If(reported[i], BitVecVal(1, 8), BitVecVal(0, 8)) == BitVecVal(cnt.get(i, 0), 8))
+        # the root's own row appears exactly when a reported link leads to its parent directory (listed once)
+        up_followed = Or([And(reported[l], fs.islink(l), fs.to_up[l]) for l in range(1, M)] + [BoolVal(False)])
+        if chains:
+            # ... or to a link that leads there (a chain of two)
+            up_followed = Or([up_followed] + [And(reported[l], fs.islink(l), Not(fs.to_up[l]), fs.target[l] == BitVecVal(t, 8), fs.islink(t), fs.to_up[t])
+                                              for l in range(1, M) for t in range(1, M) if t != l])
+        conds_rows.append(If(up_followed, BitVecVal(1, 8), BitVecVal(0, 8)) == BitVecVal(cnt.get(0, 0), 8))
         cond_status = status == 0
         for label, cs in (('rows', conds_rows), ('status', [cond_status])):
             r = ctx.check(Not(And(cs)))
@@ -298,7 +350,9 @@ def run_family(sess, M, dot, dfs, fam):
             for l in links:
                 t = m.eval(fs.target[l], model_completion=True).as_long()
                 rel = z3.is_true(m.eval(fs.relative[l], model_completion=True))
-                if t == M:
+                if z3.is_true(m.eval(fs.to_up[l], model_completion=True)):
+                    cls.add('above-root')
+                elif t == M:
                     cls.add('dangling')
                 elif t != 0 and kinds.get(t) == FILE:
                     cls.add('to-file')
@@ -329,6 +383,7 @@ def cli_replay(fs, m, dot, dfs):
         par = {i: m.eval(fs.parent[i], model_completion=True).as_long() for i in range(1, M)}
         kind = {i: m.eval(fs.kind[i], model_completion=True).as_long() for i in range(1, M)}
         tgt = {i: m.eval(fs.target[i], model_completion=True).as_long() for i in range(1, M)}
+        upl = {i: z3.is_true(m.eval(fs.to_up[i], model_completion=True)) for i in range(1, M)}
         rel = {i: z3.is_true(m.eval(fs.relative[i], model_completion=True)) for i in range(1, M)}
         path = {0: 'R0'}
         usable = {0: True}
@@ -350,7 +405,9 @@ def cli_replay(fs, m, dot, dfs):
             for i in range(1, M):
                 if usable[i] and kind[i] == LINK:
                     p = os.path.join(d, path[i])
-                    if tgt[i] == M or not usable.get(tgt[i], False):
+                    if upl[i]:
+                        t = d          # the parent directory of the root
+                    elif tgt[i] == M or not usable.get(tgt[i], False):
                         t = os.path.join(d, 'dangling-%d' % i)
                     else:
                         t = os.path.join(d, path[tgt[i]])
@@ -380,7 +437,7 @@ def cli_replay(fs, m, dot, dfs):
                                 env={'PATH': os.environ['PATH'], 'HOME': d, 'TZ': 'UTC'})
             got = sorted(p_.stdout.decode().split('\n')[:-1])
             bad = got != sorted(want) or p_.returncode != 0
-            desc = {path[i]: ('dir' if kind[i] == DIR else 'file' if kind[i] == FILE else 'link->%s%s' % ('DANGLING' if tgt[i] == M else path.get(tgt[i]), ' (relative)' if rel[i] else ''))
+            desc = {path[i]: ('dir' if kind[i] == DIR else 'file' if kind[i] == FILE else 'link->%s%s' % ('<parent of R0>' if upl[i] else 'DANGLING' if tgt[i] == M else path.get(tgt[i]), ' (relative)' if rel[i] else ''))
                     for i in range(1, M) if usable[i]}
             return bad, 'fselect %s (cwd %s) on %r -> names %r status %s stderr %r ; expected names %r status 0' % (
                 ' '.join(argv).replace(d, '<tmp>'), 'R0' if dot else '<tmp>', desc, got, p_.returncode, p_.stderr.decode()[:200].replace(d, '<tmp>'), sorted(want))
@@ -396,14 +453,28 @@ def main(sess):
     sess.assumptions += [
         'abstract file system with path spellings: the OS resolves an absolute text to the node with that canonical path and a relative text against the cwd; '
         'read_dir / canonicalize follow links at the final component; DirEntry::ino is the inode of the entry itself',
-        'link targets are not links themselves (chains outside the bound); the root is an absolute path or `.`; no depth window; check_file summarised',
+        'link targets are not links themselves except in the `chains` family (chains of two links); the root is an absolute path or `.`; no depth window; check_file summarised',
     ]
     quick = sess.tier == 'quick'
     M = 4 if quick else 5
-    sess.bounds['links'] = {'nodes': M, 'targets': 'any node or dangling', 'spelling': 'absolute / relative to the link directory', 'root': 'absolute and `.`', 'modes': 'bfs, dfs'}
+    sess.bounds['links'] = {'nodes': M, 'targets': 'any node or dangling; in the `above` families also the parent directory of the root (nodes - 1)', 'spelling': 'absolute / relative to the link directory', 'root': 'absolute and `.`', 'modes': 'bfs, dfs'}
     only = getattr(sess, 'only', None)
     for dot in (False, True):
         for dfs in (False, True):
             fam = 'links/%s/%s' % ('dot' if dot else 'abs', 'dfs' if dfs else 'bfs')
             if not only or fam in only:
                 run_family(sess, M, dot, dfs, fam)
+    fam = 'links/chains/bfs'
+    if not only or fam in only:
+        run_family(sess, 5, False, False, fam, chains=True)
+    fam = 'links/above-chain/bfs'          # a chain of two links whose end lies outside (above) the root: rows appear only if it is followed
+    if not only or fam in only:
+        run_family(sess, 3, False, False, fam, up=True, chains=True)
+    if not only or 'root_options' in only:
+        from drivers import c01
+        c01.fam_root_options(sess)
+    # links that lead above the root (to the root's parent directory): one node fewer, bfs and dfs, absolute root
+    for dfs in (False, True):
+        fam = 'links/above/%s' % ('dfs' if dfs else 'bfs')
+        if not only or fam in only:
+            run_family(sess, M - 1, False, dfs, fam, up=True)
